@@ -79,6 +79,15 @@ def run(report, db, tier):
     borrow(report, 'R10.3v', "the request id echoed by the plugin arm survives the VarInt codec: what read returns, send accepts (C03's rules)",
            lambda rid, c: c.startswith(('read:', 'send:negative')),
            lambda sub: c03.run(sub, db, tier))
+    from . import c09
+    from ..protocol import Proto as _Proto
+    borrow(report, 'R10.0', "the login reactor decodes with the ids of the "
+           "version in force: connect() sets the context's version before "
+           "it builds the reactor (whose id table is made at construction) "
+           "and before the handshake (C09's rule)",
+           lambda rid, c: c.startswith('inforce:'),
+           lambda sub: c09.shortcut(sub, db, shared.summariser(db, cg), M,
+                                    _Proto(db)))
     from . import c06
     borrow(report, 'R10.3c', "every login packet is the one its id says: no "
            "two classes of a login table share an id in any supported "
